@@ -529,6 +529,10 @@ func (q *checker) bcheckAssignment(lhs *a.Expr, op t.ID, rhs *a.Expr) error {
 		return nil
 	}
 
+	if err := q.dropFactsAliasedByStore(lhs); err != nil {
+		return err
+	}
+
 	if op == t.IDEq {
 		if err := q.facts.dropAnyFactsMentioning(lhs); err != nil {
 			return err
@@ -654,6 +658,60 @@ func (q *checker) bcheckAssignment(lhs *a.Expr, op t.ID, rhs *a.Expr) error {
 	}
 
 	return nil
+}
+
+// dropFactsAliasedByStore drops the facts that a store to lhs can falsify even
+// though they do not mention lhs itself:
+//   - after "x[j] = v", facts about "x[i]" for any other index expression i
+//     (i and j can be equal at run time),
+//   - after a store through a slice variable, facts about any indexed element
+//     (the slice can alias an array field or another slice),
+//   - after a store to (something rooted at) this, facts about the result of a
+//     method call on this (the method can read the field just written).
+func (q *checker) dropFactsAliasedByStore(lhs *a.Expr) error {
+	root := lhs
+	throughSlice := false
+	for {
+		if base, _, ok := root.IsIndex(); ok {
+			if base.MType() != nil && base.MType().IsEitherSliceType() {
+				throughSlice = true
+			}
+			root = base
+		} else if base, _, ok := root.IsSelector(); ok {
+			root = base
+		} else {
+			break
+		}
+	}
+	storeToThis := (root.Operator() == 0) && (root.Ident() == t.IDThis)
+	indexBase, _, isIndex := lhs.IsIndex()
+	if !isIndex && !storeToThis {
+		return nil
+	}
+
+	return q.facts.update(func(x *a.Expr) (*a.Expr, error) {
+		drop := false
+		x.AsNode().Walk(func(n *a.Node) error {
+			if drop || (n.Kind() != a.KExpr) {
+				return nil
+			}
+			o := n.AsExpr()
+			if base, _, ok := o.IsIndex(); ok {
+				if throughSlice || (isIndex && base.Eq(indexBase)) {
+					drop = true
+				}
+			} else if recv, _, _, ok := o.IsMethodCall(); ok && storeToThis {
+				if (recv.Operator() == 0) && (recv.Ident() == t.IDThis) {
+					drop = true
+				}
+			}
+			return nil
+		})
+		if drop {
+			return nil, nil
+		}
+		return x, nil
+	})
 }
 
 func (q *checker) bcheckAssignment1(lhs *a.Expr, lTyp *a.TypeExpr, op t.ID, rhs *a.Expr) (bounds, error) {
